@@ -44,6 +44,8 @@ Frags == <<
   Frag("S", <<"x", "=", "'abc", ";">>, <<"x", "=", "'abc'", ";">>, "unterminated string"),
   Frag("S", <<"x", "=", "y", "~=", "/abc", ";">>, <<"x", "=", "y", "~=", "/abc/", ";">>, "unterminated regexp"),
   Frag("S", <<"x", "=", "y", "~=", "/abc/z", ";">>, <<"x", "=", "y", "~=", "/abc/i", ";">>, "illegal regexp flag"),
+  Frag("S", <<"x", "=", "y", "~=", "/abc/I", ";">>, <<"x", "=", "y", "~=", "/abc/i", ";">>, "illegal regexp flag"),
+  Frag("S", <<"x", "=", "y", "~=", "/abc/iM", ";">>, <<"x", "=", "y", "~=", "/abc/im", ";">>, "illegal regexp flag"),
   Frag("S", <<"if", "(", "true", ")", "{", "x", "=", "1", ";">>, <<"if", "(", "true", ")", "{", "x", "=", "1", ";", "}">>, "unbalanced"),
   Frag("S", <<"while", "(", "false", ")", "{">>, <<"while", "(", "false", ")", "{", "}">>, "unbalanced"),
   Frag("S", <<"function", "g", "(", "a", ",", "b", "{", "return", "a", ";", "}">>, <<"function", "g", "(", "a", ",", "b", ")", "{", "return", "a", ";", "}">>, "unbalanced"),
